@@ -470,6 +470,28 @@ def _len_of(v) -> Optional[Rat]:
     return None
 
 
+def _size2d(t) -> Optional[Rat]:
+    """number of elements of the 2-D result of linspace over 1-D end points, through transposition and dropping the last row"""
+    if not isinstance(t, Term):
+        return None
+    if t.head == 'T' and len(t.args) == 1:
+        return _size2d(t.args[0])
+    drop = sym.C(0)
+    if t.head == 'item' and len(t.args) == 2 and isinstance(t.args[1], Term) and t.args[1].head == 'slice':
+        lo, hi, step = t.args[1].args
+        if isinstance(lo, Const) and lo.v is None and isinstance(step, Const) and step.v is None and isinstance(hi, Num) and hi.is_const() and hi.const() == -1:
+            drop, t = sym.C(1), t.args[0]
+        else:
+            return None
+    if isinstance(t, Term) and t.head == 'lib:numpy.linspace' and t.kw('axis') is None:
+        num = t.kw('num')
+        ends = [t.kw('start'), t.kw('stop')]
+        lens = [_len_of(x) for x in ends if isinstance(x, (Num, Term)) and _len_of(x) is not None]
+        if isinstance(num, Num) and num.length is None and lens:
+            return (num.r - drop) * lens[0]
+    return None
+
+
 def arange_bounds(t: 'Term'):
     """(lo, hi) of numpy.arange(lo, hi) / arange(lo, stop=hi) with scalar bounds and unit step; None for other forms"""
     if t.head != 'lib:numpy.arange' or t.kw('step') is not None or len(t.args) > 2:
@@ -532,6 +554,8 @@ def lib_length(t: 'Term') -> Optional[Rat]:
             lo_hi = arange_bounds(t)
             if lo_hi is not None:
                 return lo_hi[1] - lo_hi[0]
+        elif h == 'method:flatten' and len(t.args) == 1:
+            return _size2d(t.args[0])
         elif h == 'apply' and len(t.args) == 2:
             f = t.args[0]
             if isinstance(f, Term) and (f.head in ('lib:scipy.interpolate.CubicSpline', 'lib:scipy.interpolate.BSpline',
